@@ -291,6 +291,26 @@ pub fn eval(mode: &str, strategy: usize, host: &TableHost, pats: &[TPattern], he
         if mode == "c06" {
             let calls = Rc::new(Cell::new(0));
             let r = catch(|| TMany::try_from_patterns_with_det_heuristic(pats.to_vec(), PatternFallback::Fail, heur_make(heur, calls)));
+            // the model of the glue around the builder (Model/ManyGlue.v): ids, n_patterns, get_pattern
+            let flags = sexp::list(pats, |p| sexp::b(p.convertible));
+            let table_s = |m: &TMany| -> String {
+                let ids: Vec<usize> = (0..pats.len()).filter(|i| m.get_pattern(PatternID(*i)).is_some()).collect();
+                let tags: Vec<S> = (0..pats.len())
+                    .map(|i| match m.get_pattern(PatternID(i)) {
+                        // the position of the returned pattern in the input vector (tags are positions)
+                        Some(q) => sexp::a(q.tag),
+                        None => sexp::a("-"),
+                    })
+                    .collect();
+                sexp::l(vec![sexp::a("ok"), sexp::nums(&ids), sexp::a(m.n_patterns()), S::L(tags)]).to_string()
+            };
+            if let Some(r) = &r {
+                o.case(
+                    sexp::l(vec![sexp::a("glue"), sexp::a("fail"), flags.clone()]).to_string(),
+                    match r { Ok(m) => table_s(m), Err(()) => "(err)".to_string() },
+                    convertible.len() < pats.len(),
+                );
+            }
             match r {
                 None => o.violation("table: construction with PatternFallback::Fail panicked".into(), replay.clone()),
                 Some(r) => {
@@ -307,6 +327,13 @@ pub fn eval(mode: &str, strategy: usize, host: &TableHost, pats: &[TPattern], he
             continue;
         };
         if mode == "c06" {
+            let ids: Vec<usize> = (0..pats.len()).filter(|i| m.get_pattern(PatternID(*i)).is_some()).collect();
+            let tags: Vec<S> = (0..pats.len()).map(|i| match m.get_pattern(PatternID(i)) { Some(q) => sexp::a(q.tag), None => sexp::a("-") }).collect();
+            o.case(
+                sexp::l(vec![sexp::a("glue"), sexp::a("skip"), sexp::list(pats, |p| sexp::b(p.convertible))]).to_string(),
+                sexp::l(vec![sexp::a("ok"), sexp::nums(&ids), sexp::a(m.n_patterns()), S::L(tags)]).to_string(),
+                convertible.len() < pats.len(),
+            );
             if m.n_patterns() != convertible.len() {
                 o.violation(format!("table: n_patterns() = {} but {} patterns were compiled", m.n_patterns(), convertible.len()), replay.clone());
             }
